@@ -30,6 +30,10 @@ def _get_list(items, path):
 def candidates(case, engine=None):
     """Yield simpler variants of the case, coarse first."""
     w = case["world"]
+    # 0. engine-specific schedule simplifications (cheap wins first)
+    if engine is not None and hasattr(engine, "shrink_schedule"):
+        for c in engine.shrink_schedule(case):
+            yield "schedule", c
     # 1. platforms
     if len(w["platforms"]) > 1:
         for i in range(len(w["platforms"])):
@@ -52,10 +56,6 @@ def candidates(case, engine=None):
         c = copy.deepcopy(case)
         del c["world"]["files"][f]
         yield "drop_file", c
-    # 5. engine-specific schedule simplifications
-    if engine is not None and hasattr(engine, "shrink_schedule"):
-        for c in engine.shrink_schedule(case):
-            yield "schedule", c
     # 6. whole bodies -> one code line; cond -> a branch body; drop items
     for f in sorted(w["files"]):
         fd = w["files"][f]
